@@ -3,4 +3,4 @@
 From Burrow Require Import Int64 Notifier.
 Require Import ExtrOcamlBasic.
 Extraction "model.ml"
-  mk_mod mkRx lists_accept c_init run_gen run group_of on_response on_response_gen.
+  mk_mod lists_accept c_init run_gen run group_of on_response on_response_gen state_at calls_at.
